@@ -76,6 +76,8 @@ class C14(Prop):
             'inflight': st.sampled_from([False] * 24 + [True]),
             'shutdown_on': st.sampled_from(['same', 'same', 'same', 'older_thread']),
             'slow_send': st.sampled_from([False, False, False, True]),
+            'bystander': st.sampled_from([False, False, True]),
+            'poll_timer': st.sampled_from(['ok'] * 9 + ['bad']),
         })
 
     def case_inflight(self, recipe):
@@ -158,6 +160,8 @@ class C14(Prop):
                           'faults': {'shutdown': ['all', f]} if f else {}})
         dotted, mname = plugsynth.make_module(world, specs)
         custom = dict(BUILTIN_OFF, APP_ROOT='/app', PLUGINS=dotted, POLL_TIMER=1000, SERVICE_SECURE='False')
+        if recipe.get('poll_timer') == 'bad':
+            custom['POLL_TIMER'] = '10s'          # text that is not a number of seconds
         if recipe['no_trace'] is not None:
             custom['NO_TRACE'] = recipe['no_trace']
             out.cls('no_trace' if recipe['no_trace'] in (True, 'True') else 'no_trace_ambiguous_text')
@@ -209,6 +213,42 @@ class C14(Prop):
         ever_started = False
         tracing_on = False
         timers = []
+        # a thread of the application that was running before the agent started and has a trace function of its own (a
+        # debugger, a coverage tool): neither start nor shutdown has any business with it
+        by_ask, by_answer, bystander = None, [], None
+        if recipe.get('bystander'):
+            import queue as _q
+            by_ask = _q.Queue()
+            out.cls('bystander_thread_with_its_own_trace_function')
+
+            def own_trace(frame, event, arg):
+                return None
+
+            def by_main():
+                sys.settrace(own_trace)
+                while True:
+                    cmd = by_ask.get()
+                    if cmd is None:
+                        sys.settrace(None)
+                        return
+                    by_answer.append(sys.gettrace())
+                    cmd.set()
+            bystander = threading.Thread(target=by_main, name='c14-bystander', daemon=True)
+            bystander.start()
+
+        def bystander_ok(when):
+            if bystander is None:
+                return True
+            ev = threading.Event()
+            by_ask.put(ev)
+            if not ev.wait(10):
+                raise HarnessError('bystander thread does not answer')
+            got = by_answer[-1]
+            if getattr(got, '__name__', None) != 'own_trace':
+                out.violate('%s: a thread that was running before the agent started lost its own trace function' % when,
+                            {'now': getattr(got, '__qualname__', repr(got))[:60]})
+                return False
+            return True
         older = None
         if recipe.get('shutdown_on') == 'older_thread':
             import queue
@@ -227,24 +267,39 @@ class C14(Prop):
             sys.settrace(pre_sys)
             threading.settrace(pre_thr)
             shut_once = False
+            resume_sys = [None]
             for op in recipe['ops']:
-                if op == 'start' and shut_once and recipe.get('poll') != 'nochange':
-                    continue            # restart with work for the (closed) task handler is not defined: not generated
                 if op == 'start' and shut_once:
                     out.cls('restart')
                     timers[:] = []
                 if op == 'start':
+                    if resume_sys[0] is not None:
+                        # the application thread goes on exactly as the earlier shutdown (by another thread) left it
+                        sys.settrace(resume_sys[0])
+                        resume_sys[0] = None
                     n_polls = len(channel.of('poll'))
                     n_inst = len(world.instances)
                     try:
                         d.start()
                     except BaseException as e:      # noqa
-                        cur = sys.gettrace()
+                        cur, cur_thr = sys.gettrace(), threading.gettrace()
                         sys.settrace(pre_sys)
+                        if recipe.get('poll_timer') == 'bad' and isinstance(e, ValueError):
+                            # a setting that cannot be used makes start fail visibly - then nothing of the agent may
+                            # stay behind: shutdown has nothing to undo for an agent that never started
+                            out.cls('start_fails_part_way')
+                            if cur is not pre_sys or cur_thr is not pre_thr:
+                                threading.settrace(pre_thr)
+                                out.violate('a start that failed part way left the agent\'s trace hooks installed')
+                            if d.poll.timer is not None and d.poll.timer.thread.is_alive():
+                                out.violate('a start that failed part way left the poll timer running')
+                            break
                         out.violate('start raised %s' % lab.exc_bucket(e))
                         break
                     cur_sys, cur_thr = sys.gettrace(), threading.gettrace()
                     sys.settrace(pre_sys)       # keep the harness itself out of the agent while we look
+                    if not bystander_ok('after start'):
+                        break
                     if d.poll.timer is not None and d.poll.timer not in timers:
                         timers.append(d.poll.timer)
                     if started_model:
@@ -335,6 +390,7 @@ class C14(Prop):
                         # sys.settrace is per thread: what the calling thread's own hook is afterwards is not stated;
                         # the process-wide hook for new threads is
                         cur_sys, cur_thr = pre_sys, threading.gettrace()
+                        resume_sys[0] = sys.gettrace()      # what this thread is left with (it did not call shutdown)
                     else:
                         try:
                             d.shutdown()
@@ -342,6 +398,8 @@ class C14(Prop):
                             exc = e
                         cur_sys, cur_thr = sys.gettrace(), threading.gettrace()
                     sys.settrace(pre_sys)
+                    if not bystander_ok('after shutdown'):
+                        break
                     if was_started and failing:
                         out.cls('shutdown_with_failure')
                         out.nontrivial = True
@@ -409,6 +467,9 @@ class C14(Prop):
             if older is not None:
                 older_jobs.put(None)
                 older.join(10)
+            if bystander is not None:
+                by_ask.put(None)
+                bystander.join(10)
             try:
                 if d.started:
                     for s in specs:
